@@ -216,12 +216,28 @@ func checkModelEm(r *Repo, ti *tmplInfo, m *model, ri int, name string, em *emis
 		tv.TypeErrs = errs
 		return tv
 	}
-	if ri+1 < len(gf.rules) && gf.rules[ri+1] == nil && m.opts.Inline {
+	// the table is indexed by the rule constants, which follow the emission's own list of rule names
+	// (the order in which link appended PegText and the action rules is the emission's, not the model's)
+	tableIndex := func(name string) int {
+		for i, n := range gf.in.Cfg.RuleNames {
+			if n == name {
+				return i + 1
+			}
+		}
+		return -1
+	}
+	tix := ri
+	if ri < len(m.rules) {
+		if ti := tableIndex(m.strOf(m.rules[ri])); ti > 0 {
+			tix = ti - 1
+		}
+	}
+	if tix+1 < len(gf.rules) && gf.rules[tix+1] == nil && m.opts.Inline {
 		tv.Skipped = "the rule under test is inlined at its only use under -inline: no function is emitted for it"
 		return tv
 	}
-	if ri+1 >= len(gf.rules) || gf.rules[ri+1] == nil {
-		tv.Und = append(tv.Und, fmt.Sprintf("rule function #%d not found in the emitted table (%d entries)", ri+1, len(gf.rules)))
+	if tix+1 >= len(gf.rules) || gf.rules[tix+1] == nil {
+		tv.Und = append(tv.Und, fmt.Sprintf("rule function #%d not found in the emitted table (%d entries)", tix+1, len(gf.rules)))
 		return tv
 	}
 	for _, rf := range gf.rules {
@@ -253,6 +269,9 @@ func checkModelEm(r *Repo, ti *tmplInfo, m *model, ri int, name string, em *emis
 	}
 	fl.ruleFirst = func(name string) *NSet { return m.ruleFirst(name) }
 	fl.nilRule = func(name string) bool {
+		if ti := tableIndex(name); ti > 0 && ti < len(gf.rules) {
+			return gf.rules[ti] == nil
+		}
 		for i, rl := range m.rules {
 			if m.strOf(rl) == name && i+1 < len(gf.rules) {
 				return gf.rules[i+1] == nil
@@ -267,7 +286,7 @@ func checkModelEm(r *Repo, ti *tmplInfo, m *model, ri int, name string, em *emis
 		}
 		return m.canFail(rule, map[*Obj]bool{})
 	}
-	fl.analyse(gf.rules[ri+1])
+	fl.analyse(gf.rules[tix+1])
 	tv.Und = append(tv.Und, uniq(fl.und)...)
 	sp := &specEval{m: m, u: u, ast: m.opts.Ast, fuel: 200000}
 	want := sp.ruleOutcomes(m.rules[ri])
